@@ -6,15 +6,14 @@ from cminx.config import Settings
 
 K1 = @@K1@@
 K2 = @@K2@@
-N1 = @@N1@@          # number of doc lines of the first / second doccomment
-N2 = @@N2@@
-L = @@L@@            # exact length of each doc line text (shard constant)
+LENS1 = @@LENS1@@    # length of every doc line of the first / second doccomment (0 = empty line, written as the bare '#')
+LENS2 = @@LENS2@@
 IND = @@IND@@        # indentation of the first block (concrete here; symbolic indentation is C01.a's subject)
 hc.shim_re("real")
 hc.quiet_logging()
 
 
-NCP = @@NCP@@        # (N1 + N2) * L
+NCP = @@NCP@@        # sum(LENS1) + sum(LENS2)
 
 
 def check(cps: $$CPS$$) -> bool:
@@ -23,8 +22,8 @@ def check(cps: $$CPS$$) -> bool:
     post: _
     """
     pc = hc.Pieces(cps)
-    t = [pc.take(L) for _ in range(N1)]
-    u = [pc.take(L) for _ in range(N2)]
+    t = [pc.take(n) for n in LENS1]
+    u = [pc.take(n) for n in LENS2]
     for x in t + u:
         if "]]" in x:
             return True          # outside the canonical form
